@@ -27,6 +27,86 @@ def search(chk, rng, n_points):
                 found += chk.violation('point', fails[0], {'kind': 'point', 'case': case})
                 if found > 3:
                     return found
+    found += deep_distinct(chk, rng, n_points)
+    found += thin_boxes(chk, rng)
+    return found
+
+
+def deep_case(c):
+    from fractions import Fraction as Fr
+    n, m, lo, hi, i, j, k = c['n'], c['m'], c['lo'], c['hi'], c['i'], c['j'], c['k']
+    K = 2 ** (n * m)
+    ev = O.evolvent_of(c)
+    w = [(b - a) / 2.0 ** m for a, b in zip(lo, hi)]
+    ys = [[float(v) for v in ev.GetImage(float(Fr(2 * (i + t) + 1, 2 * K)))] for t in range(3)]
+    out = []
+    if ys[0] == ys[1] or ys[1] == ys[2] or ys[0] == ys[2]:
+        out.append('subintervals %d, %d, %d of 2^%d (just beside the coarse boundary %d/2^%d) do not map to three different cells: %r' % (i, i + 1, i + 2, n * m, k, n * j, ys))
+    q = [float(v) for v in ev.GetImage(float(Fr(4 * i + 1, 4 * K)))]
+    if q != ys[0]:
+        out.append('two points of subinterval %d of 2^%d map to different cells %r, %r' % (i, n * m, q, ys[0]))
+    for a_, b_ in ((ys[0], ys[1]), (ys[1], ys[2])):
+        d = sorted(round(abs(u - v) / c_, 6) for u, v, c_ in zip(a_, b_, w))
+        if d != [0.0] * (n - 1) + [1.0] and not out:
+            out.append('consecutive subintervals near %d of 2^%d map to cells %r apart (in cell widths)' % (i, n * m, d))
+    return out
+
+
+def deep_distinct(chk, rng, count):
+    """fine grids (N*m up to 50): subintervals just left and right of coarse boundaries k/2^(N j) must map to pairwise different cells
+    (consecutive ones to neighbouring cells), and every point of one subinterval to the same cell"""
+    from fractions import Fraction as Fr
+    found = 0
+    for _ in range(count):
+        n = rng.choice([2, 3, 4, 5])
+        m = rng.choice([50 // n, 50 // n - 1, max(2, 34 // n + 1), 10 if n * 10 <= 50 else 50 // n])
+        lo, hi = H.random_box(rng, n, nice=rng.random() < 0.5)
+        case = {'n': n, 'm': m, 'lo': lo, 'hi': hi, 'prehistory': O.random_prehistory(rng, n, lo, hi)}
+        K = 2 ** (n * m)
+        j = rng.randint(0, min(m - 1, 3))
+        k = rng.randrange(0, 2 ** (n * j)) if j else 0
+        base = k * 2 ** (n * (m - j))
+        off = rng.choice([0, 1, 2, rng.randrange(1, 2 ** 10), rng.randrange(1, 2 ** 17)]) * rng.choice([1, 1, -1])
+        i = min(max(base + off, 0), K - 3)
+
+        case.update(i=i, j=j, k=k)
+        fails = O.guarded(deep_case, case)
+        chk.evaluations += 1
+        if fails:
+            found += chk.violation('cells', fails[0], {'kind': 'deep', 'case': case})
+            if found > 2:
+                break
+    return found
+
+
+def thin_boxes(chk, rng):
+    """boxes with very thin or very large sides: images are still the cell centres (different cells -> different points, inside the box)"""
+    found = 0
+    for side in (1e-12, 3e-11, 1e-9, 1e-6, 1e6, 1e9):
+        for n, m in ((1, 10), (2, 3), (3, 2)):
+            lo = [rng.choice([0.0, 5.0, -3.0])] * n
+            hi = [a + (side if t == 0 else 1.0) for t, a in enumerate(lo)]
+
+            def one(_):
+                from iOpt.evolvent.evolvent import Evolvent
+                ev = Evolvent(lo, hi, n, m)
+                K = 2 ** (n * m) if n > 1 else 64
+                ys = [tuple(float(v) for v in ev.GetImage((2 * i + 1) / (2.0 * K))) for i in range(K)]
+                out = []
+                if len(set(ys)) != K:
+                    out.append('box with a side of %g (N=%d, m=%d): %d subintervals map to only %d different points' % (side, n, m, K, len(set(ys))))
+                firsts = sorted(set(y[0] for y in ys))
+                exp = (2 ** m if n > 1 else K)
+                if len(firsts) != exp:
+                    out.append('box with a side of %g (N=%d, m=%d): first coordinate takes %d values, expected %d' % (side, n, m, len(firsts), exp))
+                if any(not (lo[0] <= y[0] <= hi[0]) for y in ys):
+                    out.append('box with a side of %g: an image leaves the box' % side)
+                return out
+            fails = O.guarded(one, None)
+            chk.evaluations += 1
+            if fails:
+                found += chk.violation('cells', fails[0], {'kind': 'thin', 'side': side, 'n': n, 'm': m, 'lo': lo, 'hi': hi})
+                break
     return found
 
 
@@ -50,12 +130,14 @@ def run(chk):
     if not found:
         for c in bad_img[:2]:
             chk.violation('image-mismatch', 'GetImage disagrees with the model (code %d: 1 = generated model differs from clean model, 2 = implementation differs)' % c['code'],
-                          {'kind': 'image-corr', 'case': c})
+                          {'kind': 'image-corr', 'case': c}, found_input=False)
         for c in bad_cells[:2]:
             chk.violation('cell-mismatch', 'implementation cell differs from model cell', {'kind': 'cells-corr', 'case': c})
 
 
 def replay(chk, rp):
+    if rp.get('kind') == 'deep':
+        fails = O.guarded(deep_case, rp['case']); print(fails); return not fails
     if rp.get('kind') == 'point' or 'case' in rp and 'x' in rp['case']:
         c = rp['case']
         fails = O.guarded(O.c07_point, {k: c.get(k) for k in ('n', 'm', 'lo', 'hi', 'x', 'prehistory')})
